@@ -398,6 +398,17 @@ def add_reductions_and_maps(u, sh):
                             ensures=['call_ensures(f, (self.%s, a.%s, b.%s), res.%s)' % (x, x, x, x) for x in f]), mode='G')
     u.take(P, gh, 'apply', C(ret=None, requires=['forall|x: T| call_requires(f, (x,))'],
                              ensures=['call_ensures(f, (old(self).%s,), final(self).%s)' % (x, x) for x in f]), mode='G')
+    u.take(P, gh, 'apply2', C(ret=None, requires=['forall|x: T, y: S| call_requires(f, (x, y))'],
+                              ensures=['call_ensures(f, (old(self).%s, other.%s), final(self).%s)' % (x, x, x) for x in f]), mode='G')
+    u.take(P, gh, 'apply3', C(ret=None, requires=['forall|x: T, y: S1, z: S2| call_requires(f, (x, y, z))'],
+                              ensures=['call_ensures(f, (old(self).%s, a.%s, b.%s), final(self).%s)' % (x, x, x, x) for x in f]), mode='G')
+    # per-element lifts of the real-number functions
+    for fn, sp in (('sqrt', 'sqrt_r(%s)'), ('recip', '(1real / %s)'), ('rsqrt', '(1real / sqrt_r(%s))'), ('ceil', 'ceil_r(%s)'),
+                   ('floor', 'floor_r(%s)'), ('round', 'round_r(%s)')):
+        u.take(P, gh, fn, C(ensures=['res.%s.v@ == %s' % (x, sp % ('self.%s.v@' % x)) for x in f]))
+    # horizontal add: adjacent pairs of the concatenation self ++ rhs
+    cat = ['self.%s.v@' % x for x in f] + ['rhs.%s.v@' % x for x in f]
+    u.take(P, gh, 'hadd', C(ensures=['res.%s.v@ == %s + %s' % (x, cat[2 * i], cat[2 * i + 1]) for i, x in enumerate(f)]))
     if n >= 2:
         # user fold: left to right
         chain = []
